@@ -2,7 +2,7 @@
 
 Explored (all exhaustive inside the stated sets):
   * every AST of the program pool (mini_pool.load_pool);
-  * Constant('string', P"body") and Constant('char', P'body') for every body of
+  * Constant('string', P"body"), Constant('char', P'body') and Pragma(body) for every body of
     length <= 3 over {a, ", ', \\, n, e-acute, 0} x prefixes {'', L, u8, u, U}:
     hand-built nodes, and the same literal parsed in a declaration when the
     lexer accepts it;
@@ -36,8 +36,10 @@ HISTORY_DEEPEST = 120
 WEAKREF_DEEPEST = 300
 WEAKREF_SMALLEST = 300
 HISTORY_MAX_CHARS = 3000
-ATTR_MODES = ["unique-string", "None", "[]", "['a','b']", "nasty-string"]
-COORD_MODES = ["Coord(file,line,column)", "Coord(file,line)", "None"]
+ATTR_MODES = ["unique-string", "None", "[]", "['a','b']", "nasty-string",
+              "ends-in-1-backslash", "ends-in-2-backslashes", "ends-in-3-backslashes"]
+COORD_MODES = ["Coord(file,line,column)", "Coord(file,line)", "None",
+               "Coord('',0,0)", "Coord(file,0)", "Coord(file,huge,1)"]
 NASTY = "q\"u'o\\t\\\\e\n\té中\x00 end"
 
 
@@ -657,6 +659,7 @@ def literals():
             for pre in PREFIXES:
                 out.append(("string", pre + '"' + b + '"'))
                 out.append(("char", pre + "'" + b + "'"))
+            out.append(("pragma", b))  # the text of a #pragma line is kept verbatim in Pragma.string
     return out
 
 
@@ -669,11 +672,15 @@ def _literal_work(items):
     fails = []
     hashes = set()
     for typ, lit in items:
-        node = c_ast.Constant(typ, lit, Coord("lit.c", 1, 5))
+        if typ == "pragma":
+            node = c_ast.Pragma(lit, Coord("lit.c", 0, 9))
+            text = "#pragma " + lit + "\nint after;"
+        else:
+            node = c_ast.Constant(typ, lit, Coord("lit.c", 1, 5))
+            text = ("char *s = " if typ == "string" else "int c = ") + lit + ";"
         account(node, stats, hashes)
         for sig, det in tree_problems(node, stats):
             fails.append((sig, {"constant": [typ, lit]}, det))
-        text = ("char *s = " if typ == "string" else "int c = ") + lit + ";"
         o = core.parse_outcome(text, "lit.c")
         if o[0] == "ok":
             stats["lexable"] += 1
@@ -754,6 +761,12 @@ def build_config(spec, config, attr_mode, coord_mode):
             return Coord("dir with space/fé.c", 10 + i, 3 + i)
         if coord_mode == COORD_MODES[1]:
             return Coord("f.c", 10 + i)
+        if coord_mode == COORD_MODES[3]:
+            return Coord("", 0, 0)
+        if coord_mode == COORD_MODES[4]:
+            return Coord("zero.c", 0)
+        if coord_mode == COORD_MODES[5]:
+            return Coord("huge.c", 4294967295 + i, 1)
         return None
 
     k = [0]
@@ -773,6 +786,8 @@ def build_config(spec, config, attr_mode, coord_mode):
                 vals[i] = ["a", "b'\"\\"]
             elif attr_mode == "nasty-string":
                 vals[i] = NASTY
+            elif attr_mode.startswith("ends-in-"):
+                vals[i] = "q'\"é " + "\\" * int(attr_mode.split("-")[2])
     return getattr(c_ast, spec.name)(*vals, coord(0))
 
 
@@ -1002,7 +1017,10 @@ def replay(rep):
         root = o[1]
         print("input:", repr(c["text"][:300]))
     elif "constant" in c:
-        root = c_ast.Constant(c["constant"][0], c["constant"][1], Coord("lit.c", 1, 5))
+        if c["constant"][0] == "pragma":
+            root = c_ast.Pragma(c["constant"][1], Coord("lit.c", 0, 9))
+        else:
+            root = c_ast.Constant(c["constant"][0], c["constant"][1], Coord("lit.c", 1, 5))
         print("node:", repr(root))
     else:
         sp = {s.name: s for s in astspec.read_cfg(astspec.cfg_path(core.REPO))}
